@@ -24,10 +24,17 @@ def _name_of(x):
     return getattr(x, "name", str(x)).lower()
 
 
+class DocWords(list):
+    """List of documentation words that remembers the entity (used in-process by C03)."""
+
+    ent = None
+
+
 def docwords(ent):
-    words = []
+    words = DocWords()
     for line in getattr(ent, "doc_list", []) or []:
         words += line.split()
+    words.ent = ent
     return words
 
 
